@@ -74,7 +74,16 @@ impl Prop for C12 {
             |f| {
                 let mut a = shapes::sigma_ascii();
                 a.extend(shapes::sigma_uni());
-                enumr::nbhd(&a, &a, 1, &mut |s| f(Case::s(s)));
+                enumr::nbhd(&a, &a, 1, &mut |s| {
+                    // the same two characters moved to the page origin (no blank column / row before them)
+                    let rows: Vec<&str> = s.split('\n').skip_while(|r| r.trim().is_empty()).collect();
+                    let lead = rows.iter().filter(|r| !r.trim().is_empty()).map(|r| r.chars().take_while(|c| *c == ' ').count()).min().unwrap_or(0);
+                    let trimmed: String = rows.iter().map(|r| r.chars().skip(lead).collect::<String>()).collect::<Vec<_>>().join("\n");
+                    if trimmed != s {
+                        f(Case::s(trimmed));
+                    }
+                    f(Case::s(s));
+                });
             },
         ));
         v.push(Scope::new(
@@ -110,7 +119,7 @@ impl Prop for C12 {
     }
     fn check(&self, scope: &str, case: &Case, cx: &mut Cx) {
         let input = &case.s;
-        let scales: &[f64] = if scope == "sparse3" { &[8.0] } else { &[8.0, 0.5, 20.0] };
+        let scales: &[f64] = if scope == "sparse3" { &[8.0] } else if scope == "edges" { &[8.0, 0.5, 20.0, 8.8, 1.0] } else { &[8.0, 0.5, 20.0] };
         let has_quote = input.contains('"');
         let has_legend = input.contains("# Legend:");
         let drawn = match refmodel::legend_cut(input) {
